@@ -244,6 +244,11 @@ impl<T: ?Sized> Clone for Arc<T> {
 impl<T: ?Sized> Drop for Arc<T> {
     #[track_caller]
     fn drop(&mut self) {
+        // The model is being torn down by a panic, nothing left to track.
+        if rt::Scheduler::is_tearing_down() {
+            return;
+        }
+
         if self.obj.ref_dec(location!()) {
             assert_eq!(
                 1,
